@@ -91,6 +91,28 @@ def rule_r1(ctx) -> RuleResult:
         if k not in SECTION:
             outs = {_iteration(ctx, dotted, lp, k, {"level": (L, L)}) for L in range(1, 7)}
             rr.informational.append({"top": k, "loop": sorted(outs)})
+    # the loop must run whenever something poppable is on top, also when no section is open:
+    # its condition is constant-true or a presence test that ROOT (always on the stack) satisfies
+    t = lp.test
+    cond_ok = isinstance(t, ast.Constant) and bool(t.value)
+    ks = None
+    if isinstance(t, ast.Call) and unparse(t.func) == "any" and t.args and isinstance(t.args[0], ast.GeneratorExp):
+        el = t.args[0].elt
+        if isinstance(el, ast.Compare) and isinstance(el.ops[0], ast.In):
+            ks = P.kind_name(ctx, el.comparators[0])
+    elif isinstance(t, ast.Call) and unparse(t.func) == "_parser_have" and len(t.args) == 2:
+        ks = P.kind_name(ctx, t.args[1])
+    if ks is not None:
+        cond_ok = "ROOT" in ks
+    if cond_ok:
+        rr.ok(dotted, "closing loop runs whenever the stack is non-empty: `{}`".format(unparse(t)[:60]))
+    elif ks is not None:
+        rr.bad(Finding("C02.R1", P.PARSER, dotted, "while {}".format(unparse(t)),
+                       "the closing loop runs only while one of {} is on the stack; ROOT is not among them, so when no section is open the "
+                       "loop is skipped and the new heading is nested inside whatever block (preformatted text, an unclosed span, ...) is still "
+                       "open instead of under ROOT".format(sorted(ks)), lp.lineno))
+    else:
+        raise AnalysisError("subtitle_start_fn: unrecognised loop condition `{}` (inconclusive)".format(unparse(t)))
     # the new section is pushed with the kind of the token
     pushes = [c for c in walk_no_nested(fn) if isinstance(c, ast.Call) and unparse(c.func) == "_parser_push"]
     if len(pushes) == 1 and unparse(pushes[0].args[1]) == "kind" and "kind = SUBTITLE_TO_KIND[token]" in unparse(fn):
